@@ -802,17 +802,36 @@ def _run_after_flatten(check, an: Analysis):
     # what a process yields is only waited for: it may be shared with other waiters (a
     # Task, a condition), so nothing else is ever done to it -- the wrapper neither calls
     # nor inspects it
-    held = [n_ for m in an.cls('usim.py._awaitable.AwaitableEvent').methods.values()
-            for n_ in ast.walk(m.node) if isinstance(n_, ast.Attribute)
-            and n_.attr == '_awaitable' and isinstance(n_.value, ast.Name)]
-    awaited = {id(n_.value) for m in an.cls('usim.py._awaitable.AwaitableEvent').methods.values()
-               for n_ in ast.walk(m.node) if isinstance(n_, ast.Await)}
-    others = [n_ for n_ in held if isinstance(n_.ctx, ast.Load) and id(n_) not in awaited]
+    wrapper_cls = an.cls('usim.py._awaitable.AwaitableEvent')
+    n_uses, other_use = 0, None
+    for method in wrapper_cls.methods.values():
+        if method.kind not in ('sync', 'coroutine') or method.is_property:
+            continue
+        for path in an.paths(Callee(method, wrapper_cls.qn)):
+            for index, event in enumerate(path.events):
+                if event.fn is not method or event.node is None:
+                    continue
+                if event.kind == 'susp' and event.data.get('expr') is not None:
+                    if rules.value_text(path, index, event['expr']) == 'self._awaitable':
+                        n_uses += 1
+                    continue
+                text = None
+                if event.kind == 'call' and isinstance(event.node, ast.Call):
+                    text = rules.value_text(path, index, event.node)
+                elif event.kind == 'store' and event.data.get('value') is not None and \
+                        event.data.get('path') != 'self._awaitable':
+                    text = rules.value_text(path, index, event.data['value'])
+                    if text == 'self._awaitable':
+                        text = None  # a local name for it
+                # (what awaiting it gave may be used freely)
+                if text is not None and 'self._awaitable' in text.replace(
+                        'await self._awaitable', 'result'):
+                    other_use = other_use or (path, index)
     check.instance('P', 'AwaitableEvent:only-awaits-what-was-yielded',
-                   not others and len(held) >= 2, where_fn(waiter.fn),
-                   'the yielded awaitable is stored and awaited, nothing else (%d uses%s)' % (
-                       len(held), '' if not others else '; line %d does something else'
-                       % others[0].lineno))
+                   other_use is None and n_uses > 0, where_fn(waiter.fn),
+                   'the yielded awaitable is stored and awaited, nothing else: no call and no '
+                   'attribute read involves it (%d awaits on paths)' % n_uses,
+                   path=rules.path_lines(*other_use) if other_use else None)
     check.instance('P', 'AwaitableEvent.wait_interruptible', ok and n_done > 0 and n_int > 0,
                    where_fn(waiter.fn), 'returns True exactly on the paths that stored the '
                    'outcome of the awaitable (%d), False on the others (%d)' % (n_done, n_int),
